@@ -352,6 +352,18 @@ type bezObs struct {
 	U      []int64 `json:"u"`     // that assignment: (span + t) * 1e6 per vertex (at most 40 logged)
 	Lin    int64   `json:"lin"`   // linear curves: max distance vertex k <-> end point k / scale * 1e12 (count must match)
 	NLin   int     `json:"nlin"`  // linear curves: number of end points expected
+	// curves with NEGATIVE handle lengths: the property does not say what they mean; the measurements above take
+	// |r| (both setters of the unchanged library do), S holds the same measurements for the signed reading
+	Alt bool    `json:"alt"`
+	S   *bezAlt `json:"s,omitempty"`
+}
+
+type bezAlt struct {
+	First int64   `json:"first"`
+	Last  int64   `json:"last"`
+	Dist  int64   `json:"dist"`
+	Mono  bool    `json:"mono"`
+	U     []int64 `json:"u"`
 }
 
 func deCasteljau(cp []v2.Vec, t float64) v2.Vec {
@@ -624,6 +636,17 @@ func c17Bezier(args []string) error {
 				e.fwd, e.rev = mode&1 == 1, mode&2 == 2
 				e.tf, e.rf = 2*math.Pi*rnd.Float64(), sc*(0.5+6*rnd.Float64())
 				e.tr, e.rr = 2*math.Pi*rnd.Float64(), sc*(0.5+6*rnd.Float64())
+				if i%4 == 2 {
+					// negative handle lengths (one setter, the other, both)
+					if sg := rnd.Intn(4); sg > 0 {
+						if sg&1 == 1 {
+							e.rf = -e.rf
+						}
+						if sg&2 == 2 {
+							e.rr = -e.rr
+						}
+					}
+				}
 			} else {
 				// explicit mid points: 0..3 after this end point
 				for m := 0; m < mode; m++ {
@@ -636,29 +659,37 @@ func c17Bezier(args []string) error {
 			ends[ne-1].fwd = false
 			ends[ne-1].mids = nil
 		}
-		// the control list the library is expected to build
-		var pts []bezPt
-		for k, e := range ends {
-			if e.rev && (k > 0 || closed) {
-				if k > 0 {
-					pts = append(pts, bezPt{X: e.p.X + e.rr*math.Cos(e.tr), Y: e.p.Y + e.rr*math.Sin(e.tr), Mid: 1})
+		// the control list the library is expected to build; rd: how a handle length is read (|r| or signed)
+		ctl := func(rd func(float64) float64) []bezPt {
+			var pts []bezPt
+			for k, e := range ends {
+				if e.rev && (k > 0 || closed) {
+					if k > 0 {
+						pts = append(pts, bezPt{X: e.p.X + rd(e.rr)*math.Cos(e.tr), Y: e.p.Y + rd(e.rr)*math.Sin(e.tr), Mid: 1})
+					}
+				}
+				pts = append(pts, bezPt{X: e.p.X, Y: e.p.Y})
+				if e.fwd {
+					pts = append(pts, bezPt{X: e.p.X + rd(e.rf)*math.Cos(e.tf), Y: e.p.Y + rd(e.rf)*math.Sin(e.tf), Mid: 1})
+				}
+				for _, m := range e.mids {
+					pts = append(pts, bezPt{X: m.X, Y: m.Y, Mid: 1})
 				}
 			}
-			pts = append(pts, bezPt{X: e.p.X, Y: e.p.Y})
-			if e.fwd {
-				pts = append(pts, bezPt{X: e.p.X + e.rf*math.Cos(e.tf), Y: e.p.Y + e.rf*math.Sin(e.tf), Mid: 1})
+			if closed && ends[0].rev {
+				// the reverse handle of the first end point is the last control point of the closing span
+				e := ends[0]
+				pts = append(pts, bezPt{X: e.p.X + rd(e.rr)*math.Cos(e.tr), Y: e.p.Y + rd(e.rr)*math.Sin(e.tr), Mid: 1})
 			}
-			for _, m := range e.mids {
-				pts = append(pts, bezPt{X: m.X, Y: m.Y, Mid: 1})
-			}
+			return pts
 		}
-		if closed && ends[0].rev {
-			// the reverse handle of the first end point is the last control point of the closing span
-			e := ends[0]
-			pts = append(pts, bezPt{X: e.p.X + e.rr*math.Cos(e.tr), Y: e.p.Y + e.rr*math.Sin(e.tr), Mid: 1})
+		pts := ctl(math.Abs)
+		neg := false
+		for _, e := range ends {
+			neg = neg || (e.fwd && e.rf < 0) || (e.rev && e.rr < 0)
 		}
 		o := bezObs{Kind: "rand", Id: id}
-		emit(measureBezier(o, func(b *sdf.Bezier) {
+		build := func(b *sdf.Bezier) {
 			for _, e := range ends {
 				bv := b.Add(e.p.X, e.p.Y)
 				if e.fwd {
@@ -671,7 +702,14 @@ func c17Bezier(args []string) error {
 					b.Add(m.X, m.Y).Mid()
 				}
 			}
-		}, spansOf(pts, closed), closed))
+		}
+		oa := measureBezier(o, build, spansOf(pts, closed), closed)
+		if neg {
+			os := measureBezier(o, build, spansOf(ctl(func(r float64) float64 { return r }), closed), closed)
+			oa.Alt = true
+			oa.S = &bezAlt{First: os.First, Last: os.Last, Dist: os.Dist, Mono: os.Mono, U: os.U}
+		}
+		emit(oa)
 	}
 	return nil
 }
